@@ -16,6 +16,7 @@ META = {'assumptions': [
 
 
 def _theta(ctx):
+    ctx.notes['exact_trig'] = True     # cos(pi/2) is exactly 0 in the exact-real model
     if ctx.native:
         s = ctx.real('theta_sin')
         c = ctx.real('theta_cos')
